@@ -91,6 +91,7 @@ func (vhost *VirtualHost) handleAutoDeleteQueue() {
 	for queueName := range vhost.autoDeleteQueue {
 		//time.Sleep(5 * time.Second)
 		verifhook.Enter("vhost.autodelete")
+		verifhook.At("vhost.autodelete.beforeDelete")
 		vhost.DeleteQueue(queueName, false, false)
 		verifhook.Exit("vhost.autodelete")
 		verifhook.Taken("vhost.autodelete")
